@@ -264,7 +264,7 @@ impl C16 {
             }};
         }
         // a NUL-free ASCII string of `len` bytes
-        let s: String = (0..len).map(|i| (b'a' + ((i as u8 + ctx.rng.u8()) % 26)) as char).collect();
+        let s: String = (0..len).map(|i| (b'a' + ((i as u8).wrapping_add(ctx.rng.u8()) % 26)) as char).collect();
         let mut s0 = s.clone().into_bytes();
         s0.push(0);
         ctor!("CommandLineTag::new", CommandLineTag::new(&s), 8, s0.clone());
